@@ -16,7 +16,7 @@ out = ['# Seeded changes vs. the quick checks', '',
        'in a fresh worktree (`tools/confirm_patch.sh`: same 30 tests pass; the demonstration exits 1 with and 0 without the change), and was',
        'then given to the quick check of its property in another fresh worktree (`tools/allmut.sh`: `VERIF_REPO=<worktree> ./check <property> quick`;',
        '/repo itself is never modified).  rc=1 means a reproduced VIOLATION; rc=0 means the check of that property stayed silent',
-       '(C04g, C13g: the change makes the run hang, which the C05 and C07 checks report - DESIGN.md section 13, eighth wave).', '',
+       '(C04g, C13g: the change makes the run hang, which the C05 check reports for both and the C07 check for C04g - DESIGN.md section 13, eighth wave).', '',
        '| change | property | what it is | needs | check result | violation tags reported |', '|---|---|---|---|---|---|']
 for key in sorted(rows, key=lambda k: (k[:3], k[3:])):
     pid, rc, wall, tags = rows[key]
